@@ -256,10 +256,28 @@ def rule_F(ck, lib):
         errs = [x for x in ex if x.kind == "err"]
         ck.judge(len(errs) == len(want_ops) - 1, "C04-F", "tuple%d:propagation" % ar, "%d early-exit paths" % len(errs), "tuple response has %d error exits for %d fallible steps" % (len(errs), len(want_ops) - 1))
     # lists
+    # a reference is written like what it refers to: the blanket `impl Response for &T` (when there is one) hands `**self`
+    # on and returns the result, nothing else - `&[T]` and `&str` are then the impls of `[T]` and `str`
+    blanket = lib.body(resp("&T"))
+    if blanket is not None:
+        bex, bps = summ(ck, lib, resp("&T"), "C04-F")
+        okb = bool(bex)
+        for x in bex or []:
+            tr = trace(x)
+            d_ = tr[0][1] if len(tr) == 1 else None
+            while d_ is not None and d_[0] in ("deref", "ref"):
+                d_ = d_[1]
+            if not (len(tr) == 1 and tr[0][0] == "write_response" and d_ == SELF and len(x.calls()) == 1):
+                okb = False
+        ck.judge(okb, "C04-F", "reference:forwards", "&T is written as T: write_response(**self) and nothing else", "the blanket Response impl for references is %s" % [[(o, show_term(d)) for o, d, _ in trace(x)] for x in bex or []][:3])
+    n_lists = 0
     for ty in ("[T]", "&[T]", "heapless::vec::Vec<T, N>"):
+        if lib.body(resp(ty)) is None and ty in ("[T]", "&[T]") and (blanket is not None or ty == "[T]"):
+            continue        # slices answer through one of the two forms
         ex, ps = summ(ck, lib, resp(ty), "C04-F")
         if ex is None:
             continue
+        n_lists += 1
         ok = True
         why = []
         n_body = 0
@@ -289,6 +307,7 @@ def rule_F(ck, lib):
         if not verdict:
             alt = list_alt_form(ex, ty)
         ck.judge(verdict or bool(alt), "C04-F", "list:%s" % ty, alt or "',' before every element but the first, elements of self in order", "list response: %s" % (why or "unexpected shape"))
+    ck.floor("C04-F", "list Response impls", n_lists, 2)
     # Error
     ex, ps = summ(ck, lib, resp("microscpi::error::Error"), "C04-F")
     if ex:
@@ -352,7 +371,7 @@ def rule_Q(ck, lib, tag=""):
     """string quoting: every string-like Response impl (helpers evaluated in place) writes '"', then the text only as the
     segments of a split at '"' with '""' between consecutive segments, then '"'."""
     strs = [b["def"] for b in lib.facts["bodies"] if b.get("trait") == "microscpi::response::Response" and b.get("name") == "write_response"
-            and b.get("self_ty") in ("&str", "heapless::string::String<N>", "alloc::string::String", "std::string::String")]
+            and b.get("self_ty") in ("&str", "str", "heapless::string::String<N>", "alloc::string::String", "std::string::String")]
     ck.floor("C04-Q", tag + "string Response impls", len(strs), 3 if tag else 2)
     for r in sorted(strs):
         ex, ps = ctx.summarize(lib, r, ck)
@@ -681,7 +700,9 @@ def rule_W(ck, lib, tag=""):
             elif name == "write_str":
                 okd = data[0] == "call" and data[1].endswith("::as_bytes") and data[2] == (arg,)
             elif name == "write_char":
-                okd = data == ("cast", arg, "u8")
+                # the character as one byte (the library writes ASCII only, rule write_char-ascii) or as its UTF-8 encoding
+                okd = data == ("cast", arg, "u8") or (data[0] == "call" and data[1].endswith("::as_bytes") and len(data[2]) == 1 and data[2][0][0] == "call"
+                                                       and data[2][0][1].endswith("::encode_utf8") and data[2][0][2] and data[2][0][2][0] == arg)
             else:
                 # write_fmt: the pieces go to the writer itself, or through a formatted string that grows as needed
                 # (alloc's `format`); an intermediate of a capacity of its own would lose an element the writer has room for
